@@ -39,14 +39,21 @@ def rule_token_init(repo, res, rule="TOKEN-INIT"):
                             where=f"pvl/token.py:{(bad[0] if bad else init).lineno}"))
 
 
-def _token_calls(stmts):
-    """names, in source order, of the self.<production>(..., tokens) calls of a statement list"""
+def _token_calls(stmts, repo=None, cls=None, depth=0):
+    """names, in source order, of the self.<production>(..., tokens) calls of a statement list; a call to a private
+    helper of the class (self._h(..., tokens)) stands for the helper's own sequence"""
     out = []
     for st in stmts:
         calls = [n for n in ast.walk(st) if isinstance(n, ast.Call) and isinstance(n.func, ast.Attribute)
                  and norm(n.func.value) == "self" and any(isinstance(a, ast.Name) and a.id == "tokens" for a in n.args)]
         calls.sort(key=lambda n: (n.lineno, n.col_offset))
-        out += [(n.func.attr, tuple(norm(a) for a in n.args)) for n in calls]
+        for n in calls:
+            if repo is not None and cls is not None and n.func.attr.startswith("_") and not n.func.attr.startswith("__") and depth < 4:
+                dc, h = repo.resolve_method(cls, n.func.attr)
+                if h is not None:
+                    out += _token_calls(h.body, repo, cls, depth + 1)
+                    continue
+            out.append((n.func.attr, tuple(norm(a) for a in n.args)))
     return out
 
 
@@ -55,26 +62,30 @@ def rule_hook_tail(repo, res):
     an assignment after its '=' by hand ("we must reproduce the last part of parse-assignment"); the productions it
     calls on the token stream around parse_value must be the ones PVLParser.parse_assignment_statement and
     parse_around_equals call there -- otherwise the statement after a missing value is parsed by another grammar
-    than every other statement (a ';' not consumed, a comment not skipped)."""
+    than every other statement (a ';' not consumed, a comment not skipped).  Private helpers are read in place."""
+    from .inline import closure
     pa = repo.method("PVLParser", "parse_assignment_statement")
-    seq = _token_calls(pa.body)
+    seq = _token_calls(pa.body, repo, "PVLParser")
     names = [n for n, _ in seq]
     if "parse_value" not in names or "parse_around_equals" not in names:
         raise AnalysisError("anchor vanished: parse_around_equals / parse_value calls of PVLParser.parse_assignment_statement")
     after_ref = seq[names.index("parse_value") + 1:]
     ae = repo.method("PVLParser", "parse_around_equals")
     # what parse_around_equals does after the '=' is found: the calls that follow its `parse_WSC_until("=", tokens)` test
-    aseq = _token_calls(ae.body)
+    aseq = _token_calls(ae.body, repo, "PVLParser")
     eq = [i for i, (n, a) in enumerate(aseq) if n == "parse_WSC_until" and a and a[0] in ("'='", '"="')]
     if not eq:
         raise AnalysisError("anchor vanished: parse_WSC_until('=', tokens) in PVLParser.parse_around_equals")
-    before_ref = aseq[eq[0] + 1:]
+    before_ref = [x for x in aseq[eq[0] + 1:] if x[0] != "_peek" and not x[0].startswith("_")]
     hook = repo.method("OmniParser", "parse_module_post_hook")
-    tries = [t for t in ast.walk(hook) if isinstance(t, ast.Try) and any(n == "parse_value" for n, _ in _token_calls(t.body))]
+    # the try block (of the hook or of a private helper it calls) that re-reads a value
+    tries = []
+    for owner, f_ in closure(repo, "OmniParser", hook, module="parser"):
+        tries += [t for t in ast.walk(f_) if isinstance(t, ast.Try) and any(n == "parse_value" for n, _ in _token_calls(t.body))]
     # innermost try that holds the parse_value call
     tries.sort(key=lambda t: len(list(ast.walk(t))))
     res.floor("try blocks of parse_module_post_hook that re-read a value", len(tries), 1)
-    hseq = _token_calls(tries[0].body)
+    hseq = _token_calls(tries[0].body, repo, "OmniParser")
     hn = [n for n, _ in hseq]
     k = hn.index("parse_value")
     ok_after = hseq[k + 1:] == after_ref
